@@ -34,7 +34,7 @@ Classical == {29, 23, 24, 25}
 Base == [sc |-> 0, mode |-> "compliant", id |-> "", sni |-> "example.com", ver |-> 0, vmin |-> 0, vmax |-> 0, suite |-> 0, group |-> 0,
          cert |-> "ecdsa", alpn |-> <<>>, force_suite |-> 0, force_group |-> 0, force_alpn |-> "", hrr_cookie |-> 0,
          legacy_only |-> FALSE, canary |-> 0, sid_echo |-> "", compression |-> 0, psk_index |-> 0, hrr_group |-> 0,
-         omit |-> TRUE, remove_sni |-> FALSE, ekm |-> 0, kx_share |-> "", kx_secret |-> "", kx_kem |-> "", edit |-> "",
+         omit |-> TRUE, remove_sni |-> FALSE, ekm |-> 0, kx_share |-> "", kx_secret |-> "", kx_kem |-> "", edit |-> "", resume_ver |-> 0,
          alps_cp |-> 0, alps12 |-> FALSE, client_alps |-> "", alps_settings |-> <<>>, client_auth |-> 0, resume |-> FALSE]
 
 \* ---- the compliant grid (C10, C11, C18): every choice the hello offers and the server can make
@@ -88,6 +88,10 @@ C12Set ==
               THEN {[Adv(x) EXCEPT !.edit = "groups-drop-last", !.force_group = LastGroup(x.id)]} ELSE {})
         \* session id not echoed, compression method, PSK identity nobody offered
         \cup (IF x.ver = 772 THEN {[Adv(x) EXCEPT !.sid_echo = "flip"], [Adv(x) EXCEPT !.psk_index = 1], [Adv(x) EXCEPT !.psk_index = 3]} ELSE {})
+        \* the same after a real TLS 1.3 session was cached (the hello of a PSK parrot then carries one identity): the server
+        \* resumes that session but names identity 1 or 7, which nobody offered
+        \cup (IF x.ver = 772 THEN {[Adv(x) EXCEPT !.resume = TRUE, !.resume_ver = 772, !.psk_index = 2],
+                                   [Adv(x) EXCEPT !.resume = TRUE, !.resume_ver = 772, !.psk_index = 8]} ELSE {})
         \cup {[Adv(x) EXCEPT !.compression = 1]}
         \* the same deviations in the ServerHello that follows a (valid) HelloRetryRequest
         \cup (IF x.ver = 772 THEN
